@@ -61,6 +61,14 @@ pub fn split_spec(ans: &str) -> (String, Option<String>) {
     }
 }
 
+/// Splits the unguarded specification (` raw=...`) off a model answer (after `split_branch`).
+pub fn split_raw(ans: &str) -> (String, Option<String>) {
+    match ans.rsplit_once(" raw=") {
+        Some((a, b)) => (a.to_string(), if b == "-" { None } else { Some(b.replace('|', " ")) }),
+        None => (ans.to_string(), None),
+    }
+}
+
 /// Splits the coverage tag (` br=<tag>`) off a model answer.
 pub fn split_branch(ans: &str) -> (String, Option<String>) {
     match ans.rsplit_once(" br=") {
